@@ -1689,6 +1689,56 @@ func ruleVD12(c *Ctx) {
 			}
 		}
 		c.check(okEOF, fn, "single-json-value", c.FnPos(f), "acceptance is dominated by a second Decode returning io.EOF", "several JSON values (trailing data) are accepted")
+		// ... and the keys mean what they say: encoding/json merges a key that occurs twice in one object and matches
+		// field names by case folding, so the document is walked token by token first (a module function that reads
+		// (*json.Decoder).Token and compares keys with strings.EqualFold) and acceptance passes its nil result
+		var keyGate map[edge]bool
+		for _, call := range callsIn(f) {
+			h := calleeOf(call.Common())
+			cv, isCall := call.(*ssa.Call)
+			if h == nil || !isCall || !c.InModule(h) || h.Blocks == nil || len(callsNamed(h, "(*encoding/json.Decoder).Token")) == 0 || len(callsNamed(h, "strings.EqualFold")) == 0 {
+				continue
+			}
+			keyGate = edgesWhere(f, func(a Atom, holds bool) bool {
+				if a.Kind != "nil" || !holds || len(a.Env) > 0 {
+					return false
+				}
+				cl, _ := callOf(a.X)
+				return cl == cv
+			})
+		}
+		okKeys := len(keyGate) > 0
+		for _, r := range acc {
+			if !mustPassEdges(f, r.Block(), keyGate) {
+				okKeys = false
+			}
+		}
+		if !okKeys && f != p0 {
+			// the check may sit in the parser itself, in front of the call of the decoding helper
+			var pGate map[edge]bool
+			for _, call := range callsIn(p0) {
+				h := calleeOf(call.Common())
+				cv, isCall := call.(*ssa.Call)
+				if h == nil || !isCall || !c.InModule(h) || h.Blocks == nil || len(callsNamed(h, "(*encoding/json.Decoder).Token")) == 0 || len(callsNamed(h, "strings.EqualFold")) == 0 {
+					continue
+				}
+				pGate = edgesWhere(p0, func(a Atom, holds bool) bool {
+					if a.Kind != "nil" || !holds || len(a.Env) > 0 {
+						return false
+					}
+					cl, _ := callOf(a.X)
+					return cl == cv
+				})
+			}
+			okKeys = len(pGate) > 0
+			for _, r := range returnsOf(p0) {
+				if len(r.Results) == 2 && isNilConst(r.Results[1]) && !mustPassEdges(p0, r.Block(), pGate) {
+					okKeys = false
+				}
+			}
+		}
+		c.check(okKeys, fn, "keys-unambiguous", c.FnPos(f), "acceptance passes a token-level check of the document's keys (no duplicate key, no key that matches a field only by case folding)",
+			"the document's keys are left to encoding/json alone, which merges a key that occurs twice in one object field by field and matches field names case-insensitively: a plan with two \"tasks\" arrays is accepted and creates a graph that matches neither")
 	}
 	// commands: validation nil edge dominates the first committing call
 	commit := c.commitFuncs()
